@@ -53,10 +53,10 @@ def _exc(e):
     return ("exc", type(e).__name__, msg)
 
 
-def _run_select(s):
+def _run_select(s, top=None):
     import numpy as np
     try:
-        r = _TOP.select(s)
+        r = (top or _TOP).select(s)
     except Exception as e:                       # noqa: BLE001 - every error type is an observation
         return _exc(e)
     arr = np.asarray(r)
@@ -205,6 +205,86 @@ def _worker(batch):
 
 
 # ------------------------------------------------------------------------------------------------
+# history layer: one Topology object, selections before / between / after edits
+# ------------------------------------------------------------------------------------------------
+def _hist_worker(hist):
+    from vlib.refmodels import selection_ref as R, selection_hist as H
+    top = R.build_topology()
+    out = {"hist": hist, "viol": [], "selects": 0, "cases": 0, "nontrivial": 0, "excluded_atoms": 0,
+           "applicable": True, "copies": 0}
+    trees = {e: R.parse(e) for e in H.EXPRS}
+
+    def evaluate(stage, last, with_copy):
+        live, alt, stale, _lb = R.table_from_topology(top)
+        rep = {"kind": "history", "edits": list(hist), "stage": stage}
+        if stale:
+            out["viol"].append(("history|%s|atom.index-stale" % last,
+                                "after %s: atoms (position, .index, name) %s" % (list(hist[:stage]), stale[:5]),
+                                dict(rep, expr="all")))
+        copy = R.build_copy(top) if with_copy else None
+        if copy is not None:
+            out["copies"] += 1
+        for e in H.EXPRS:
+            a = set(R.select(trees[e], live))
+            dc = a ^ set(R.select(trees[e], alt))         # atoms whose truth depends on dangling bonds
+            out["excluded_atoms"] += len(dc)
+            out["cases"] += 1
+            out["nontrivial"] += 0 < len(a) < len(live)
+            got = _run_select(e, top)
+            out["selects"] += 1
+            sig = "history|%s|%s|" % (last, H.tag(e))
+            where = "history %s, stage %d, select(%r)" % (list(hist), stage, e)
+            if got[0] != "ok":
+                out["viol"].append((sig + "vs-reference:" + _kind(got), "%s: expected %s, got %s" % (where, sorted(a), got[1:]),
+                                    dict(rep, expr=e)))
+                continue
+            g = got[1]
+            if any(y <= x for x, y in zip(g, g[1:])):
+                out["viol"].append((sig + "not-increasing", "%s returned %s" % (where, list(g)), dict(rep, expr=e)))
+            if set(g) - dc != a - dc or len(set(g)) != len(g):
+                out["viol"].append((sig + "vs-reference:wrong-set", "%s: expected %s, got %s" % (where, sorted(a), list(g)),
+                                    dict(rep, expr=e)))
+            if copy is not None:
+                c = _run_select(e, copy)
+                out["selects"] += 1
+                if c[0] != "ok" or set(c[1]) - dc != set(g) - dc:
+                    out["viol"].append((sig + "vs-copy:differs",
+                                        "%s = %s on the edited object, but %s on a from-scratch copy of the edited topology" % (
+                                            where, list(g), list(c[1]) if c[0] == "ok" else c[1:]), dict(rep, expr=e)))
+
+    evaluate(0, "before", False)
+    for i, e in enumerate(hist):
+        if not H.apply_edit(top, e):
+            out["applicable"] = False
+            return out
+        evaluate(i + 1, e[0], i + 1 == len(hist))
+    return out
+
+
+def _history_layer(ctx, R):
+    from vlib.refmodels import selection_hist as H
+    # the name-based walk must reproduce the hand-assigned truth table on the unedited fixture
+    live, alt, stale, _lb = R.table_from_topology(_TOP)
+    assert live == _ATOMS and alt == _ATOMS and not stale, "walk of the fixture differs from the hand-written table"
+    hs = H.histories()
+    k = ctx.seed % len(hs)
+    res = ctx.pmap(_hist_worker, hs[k:] + hs[:k])
+    cov = {"histories": len(hs), "histories_applicable": 0, "history_selects": 0, "history_cases": 0,
+           "history_cases_nontrivial": 0, "history_from_scratch_copies": 0,
+           "history_atoms_excluded_(truth_depends_on_bond_to_deleted_atom)": 0,
+           "history_edits": [list(e) for e in H.EDITS], "history_expressions": list(H.EXPRS)}
+    for r in res:
+        cov["histories_applicable"] += r["applicable"]
+        cov["history_selects"] += r["selects"]
+        cov["history_cases"] += r["cases"]
+        cov["history_cases_nontrivial"] += r["nontrivial"]
+        cov["history_from_scratch_copies"] += r["copies"]
+        cov["history_atoms_excluded_(truth_depends_on_bond_to_deleted_atom)"] += r["excluded_atoms"]
+        ctx.report(r["viol"])
+    return cov
+
+
+# ------------------------------------------------------------------------------------------------
 # fixture
 # ------------------------------------------------------------------------------------------------
 def _setup():
@@ -314,7 +394,7 @@ def _space(ctx, R, G):
     stats["depth2_strings"] = len(items) - n0
 
     to = G.oplike_trees(ctx.seed)
-    po = G.programs(to, ("min", "leafparen"))
+    po = G.programs(to, ("min",))
     selfcheck(to, po, "oplike")
     n0 = len(items)
     for s, k, _pres in po:
@@ -439,7 +519,9 @@ def run(ctx):
         "rule": "every program of the grammar described in vlib/refmodels/selection_gen.py (depth 1 in every spelling, depth 2 "
                 "over 21 representative leaves, depth 3 %s, all connective spellings and parenthesisations) plus "
                 "nesting, whitespace and malformed strings; each distinct string is executed once; non-trivial = the reference "
-                "selects neither no atom nor all %d atoms" % (
+                "selects neither no atom nor all %d atoms; history layer: every edit sequence of length 1..2 over the 9 edits of "
+                "selection_hist.py x its 28 expressions, evaluated on one object before / after every edit and on a from-scratch "
+                "copy, a case = (history, stage, expression), non-trivial by the same rule" % (
                     "three-leaf slice over 3 leaves" if ctx.quick else "complete over 4 leaves + three-leaf slice over 5 leaves",
                     len(_ATOMS)),
         "samples": samples,
@@ -461,6 +543,12 @@ def run(ctx):
     }
     cov.update(stats)
     cov.update(fixture)
+    hcov = _history_layer(ctx, R)
+    cov.update(hcov)
+    cov["evaluations"] += hcov["history_selects"]
+    cov["distinct_nontrivial"] += hcov["history_cases_nontrivial"]
+    cov["samples"].append({"history": [list(e) for e in (("delete", 6, "H1"), ("insert_front",))],
+                           "expr": "n_bonds 2 and water", "stages": "before, after each edit, from-scratch copy"})
     ctx.assume("the documented meaning of =~ is Python re.match on the attribute value; only patterns on which match, "
                "fullmatch and search agree for every value of the fixture are used")
     ctx.assume("an attribute without a value (rescode of a non-protein residue) equals no literal and matches no pattern")
@@ -472,6 +560,16 @@ def replay(ctx, rep):
     kind = rep.get("kind")
     if kind == "fixture":
         return all(abs(ma.element.mass - a["mass"]) <= 0.01 for a, ma in zip(_ATOMS, _TOP.atoms))
+    if kind == "history":
+        def norm(e):
+            return tuple(tuple(x) if isinstance(x, list) else x for x in e)
+        hist = tuple(norm(e) for e in rep["edits"])
+        runs = [_hist_worker(hist) for _ in range(2)]
+        obs = [sorted((v[0], v[2]["stage"], v[2]["expr"]) for v in r["viol"]) for r in runs]
+        print("replay 1:", obs[0][:6])
+        print("replay 2:", obs[1][:6])
+        assert obs[0] == obs[1], "replay is not deterministic"
+        return not any(st == rep["stage"] and ex == rep["expr"] for _sig, st, ex in obs[0])
     s = rep["expr"]
 
     def once():
